@@ -2365,19 +2365,24 @@ class TypeBlocks(ContainerOperand):
             else:
                 raise NotImplementedError(f'cannot apply binary operators to arrays without alignable shapes: {self._shape}, {other.shape}.') #type: ignore
 
+        # NOTE: the result has the shape of self; needed as a reference when there are no columns
         if columnar:
             return self.from_blocks(apply_binary_operator_blocks_columnar(
                     values=self_operands,
                     other=other,
                     operator=operator,
-                    ))
+                    ),
+                    shape_reference=self._shape,
+                    )
 
         return self.from_blocks(apply_binary_operator_blocks(
                 values=self_operands,
                 other=other_operands,
                 operator=operator,
                 apply_column_2d_filter=apply_column_2d_filter,
-                ))
+                ),
+                shape_reference=self._shape,
+                )
 
     #---------------------------------------------------------------------------
     # transformations resulting in the same dimensionality
